@@ -469,7 +469,10 @@ class TemplateString(Expression):
         return f"{quote}{parts}{quote}"
 
     def __hash__(self) -> int:
-        return hash(tuple(self.template))
+        # Interpolated expressions hash by identity, so hash the canonical
+        # string representation, like `Path` does. Tags that identify themselves
+        # by their arguments (`cycle`) rely on equal expressions hashing equal.
+        return hash(str(self))
 
     def __sizeof__(self) -> int:
         return sum(sys.getsizeof(expr) for expr in self.template)
